@@ -268,6 +268,62 @@ def r3_reproducible(ctx, chk, rule="C15.3"):
             chk.violation(rule, GEN, "`%s`: a separate generator is not covered by random.seed(seed)" % src(c), expected="module-level generator", found=src(c), construct="generator separate Random")
 
 
+def r3b_no_hash_order(ctx, chk, rule="C15.3"):
+    """Reproducible across interpreter runs: no random draw may depend on the iteration order of a set (string hashing is
+    randomised per process), e.g. random.choices(list(some_set), ...)."""
+    f = ctx.func(GEN + "::gen_rnd_board")
+    scope = ctx.cg.reachable([f])
+    n = 0
+    for g in scope:
+        sets, ordered = set(), set()
+
+        def is_set_expr(e):
+            if isinstance(e, (ast.Set, ast.SetComp)):
+                return True
+            if isinstance(e, ast.Call) and call_name(e) in ("set", "frozenset"):
+                return True
+            if isinstance(e, ast.Name) and e.id in sets:
+                return True
+            if isinstance(e, ast.BinOp) and isinstance(e.op, (ast.Sub, ast.BitOr, ast.BitAnd, ast.BitXor)) and (is_set_expr(e.left) or is_set_expr(e.right)):
+                return True
+            if isinstance(e, ast.IfExp):
+                return is_set_expr(e.body) or is_set_expr(e.orelse)
+            if isinstance(e, ast.Call) and isinstance(e.func, ast.Attribute) and e.func.attr in ("union", "intersection", "difference", "symmetric_difference", "copy") \
+                    and is_set_expr(e.func.value):
+                return True
+            if isinstance(e, ast.Call) and isinstance(e.func, ast.Attribute) and e.func.attr in ("keys",) :
+                return False
+            return False
+
+        def is_hash_ordered(e):
+            if isinstance(e, ast.Name) and e.id in ordered:
+                return True
+            if isinstance(e, ast.Call) and call_name(e) in ("list", "tuple", "iter", "enumerate") and e.args and (is_set_expr(e.args[0]) or is_hash_ordered(e.args[0])):
+                return True
+            if isinstance(e, (ast.ListComp, ast.GeneratorExp)) and e.generators and (is_set_expr(e.generators[0].iter) or is_hash_ordered(e.generators[0].iter)):
+                return True
+            if isinstance(e, ast.IfExp):
+                return is_hash_ordered(e.body) or is_hash_ordered(e.orelse)
+            return False
+        for _ in range(3):       # small fixpoint over straight-line assignments
+            for st in walk_no_nested_defs(g.node):
+                if isinstance(st, ast.Assign) and len(st.targets) == 1 and isinstance(st.targets[0], ast.Name):
+                    if is_set_expr(st.value):
+                        sets.add(st.targets[0].id)
+                    if is_hash_ordered(st.value):
+                        ordered.add(st.targets[0].id)
+        for c in walk_no_nested_defs(g.node):
+            if isinstance(c, ast.Call) and call_name(c).startswith("random.") and call_name(c) != "random.seed":
+                for a in list(c.args) + [k.value for k in c.keywords]:
+                    if is_hash_ordered(a) or is_set_expr(a):
+                        n += 1
+                        chk.violation(rule, g.where(c), "`%s` draws from a sequence in set-iteration order (`%s`): the order of a set of strings changes from one interpreter run to the next "
+                                      "(hash randomisation), so the same seed gives different boards" % (src(c)[:80], src(a)[:40]),
+                                      expected="a literal or sorted population", found=src(a)[:60], construct="%s hash-ordered population" % g.short)
+    if not n:
+        chk.ok(rule, f.where(), "no random draw in the board construction takes its population / weights in set-iteration order")
+
+
 def table_cells(sx, name, rows_src, cols_src):
     """How the table `name` is filled: ('ok', element term) if it is `rows` rows of `cols` unconditional appends - in the
     idiom `t.append([]); t[i].append(x)`, `row = []; row.append(x); t.append(row)` or nested comprehensions;
@@ -503,6 +559,7 @@ def run(ctx, chk):
     r1_ranges(ctx, chk)
     r2_order(ctx, chk)
     r3_reproducible(ctx, chk)
+    r3b_no_hash_order(ctx, chk)
     r45_shape_values(ctx, chk)
     C08.argument_swap_rule(ctx, chk, "C15.2:swap")
     chk.require_instances("C15.1", 9)
